@@ -183,9 +183,14 @@ class CVIART(BaseART):
         else:
             raise ValueError(f"Invalid Validity Parameter: {extra['validity']}")
 
-        old_VI = valid_func(self.data, self.labels_)
         new_labels = np.copy(self.labels_)
         new_labels[extra["index"]] = c_
+        # the indices are defined for 2 .. n_samples - 1 distinct labels only; outside
+        # that range there is nothing to compare, as with fewer than two clusters
+        for labels in (self.labels_, new_labels):
+            if not 2 <= len(np.unique(labels)) <= len(labels) - 1:
+                return True
+        old_VI = valid_func(self.data, self.labels_)
         new_VI = valid_func(self.data, new_labels)
         if extra["validity"] != self.DAVIESBOULDIN:
             return new_VI > old_VI
